@@ -380,6 +380,13 @@ Example artifact_overlong_accepted_ex :
   /\ output_artifact empty_artifact = [255; 0; 0; 0; 0; 0; 0; 0].
 Proof. cbv zeta. split; [vm_compute; reflexivity|]. split; [vm_compute; discriminate|vm_compute; reflexivity]. Qed.
 
+(** a declared element count of 2^32 - 1 on a short input fails at the first missing element; the
+    count is neither materialised nor used to allocate *)
+Example artifact_huge_count_ex :
+  parse_artifact [255; 0; 255; 255; 255; 255; 15] = None /\
+  parse_artifact [255; 0; 0; 0; 0; 0; 0; 255; 255; 255; 255; 15; 1] = None.
+Proof. split; vm_compute; reflexivity. Qed.
+
 (** ** non-vacuity: a non-trivial well-formed artifact *)
 Definition sample_artifact : s_artifact :=
   {| sa_imports := [ {| si_mod := [99; 111; 110; 99; 111; 114; 100; 105; 117; 109];
@@ -405,3 +412,203 @@ Example artifact_nonvacuous_ex :
 Proof.
   split; [apply wf_artifactb_iff; vm_compute; reflexivity|]. split; vm_compute; reflexivity.
 Qed.
+
+(** ** the zero-copy view: parsing into slices of the input and reading the slices back is parsing
+
+    Every parser leaves a suffix of its input ([Sfx]), so at every point the remaining bytes [bs]
+    satisfy [input = pre ++ bs], the position is [length input - length bs] and
+    [input[pos .. pos + n]] is [firstn n bs]. *)
+Definition Sfx {A} (d : dec A) : Prop := forall bs a r, d bs = Some (a, r) -> exists pre, bs = pre ++ r.
+
+Lemma Sfx_ret {A} (a : A) : Sfx (ret a).
+Proof. intros bs a' r H. inversion H; subst. exists []. reflexivity. Qed.
+Lemma Sfx_fail {A} : Sfx (@fail A).
+Proof. intros bs a r H. discriminate. Qed.
+Lemma Sfx_bind {A B} (d : dec A) (k : A -> dec B) : Sfx d -> (forall a, Sfx (k a)) -> Sfx (bind d k).
+Proof.
+  intros Hd Hk bs b r. unfold bind. destruct (d bs) as [[a r1]|] eqn:E; [|discriminate]. intros H.
+  destruct (Hd _ _ _ E) as [p1 ->]. destruct (Hk _ _ _ _ H) as [p2 ->].
+  exists (p1 ++ p2). rewrite <- app_assoc. reflexivity.
+Qed.
+Lemma Sfx_byte : Sfx p_byte.
+Proof. intros [|b t] a r H; inversion H; subst. exists [a]. reflexivity. Qed.
+Lemma Sfx_u16 : Sfx decode_u16.
+Proof. intros bs a r H. destruct (decode_u16_bounded _ _ _ H) as (_ & pre & -> & _). exists pre. reflexivity. Qed.
+Lemma Sfx_u32 : Sfx decode_u32.
+Proof. intros bs a r H. destruct (decode_u32_bounded _ _ _ H) as (_ & pre & -> & _). exists pre. reflexivity. Qed.
+Lemma Sfx_s32 : Sfx decode_s32.
+Proof. intros bs a r H. destruct (decode_s32_bounded _ _ _ H) as (_ & pre & -> & _). exists pre. reflexivity. Qed.
+Lemma Sfx_s64 : Sfx decode_s64.
+Proof. intros bs a r H. destruct (decode_s64_bounded _ _ _ H) as (pre & -> & _). exists pre. reflexivity. Qed.
+Lemma Sfx_many_nat {A} (d : dec A) : Sfx d -> forall n, Sfx (p_many_nat d n).
+Proof.
+  intros Hd. induction n as [|n IH]; intros bs l r; cbn [p_many_nat].
+  - intros H. inversion H; subst. exists []. reflexivity.
+  - destruct (d bs) as [[x r1]|] eqn:E; [|discriminate].
+    destruct (p_many_nat d n r1) as [[l' r2]|] eqn:E2; [|discriminate].
+    intros H. inversion H; subst. destruct (Hd _ _ _ E) as [p1 ->]. destruct (IH _ _ _ E2) as [p2 ->].
+    exists (p1 ++ p2). rewrite <- app_assoc. reflexivity.
+Qed.
+Lemma Sfx_many {A} (d : dec A) n : Sfx d -> Sfx (p_many d n).
+Proof. intros H bs l r. rewrite p_many_eq_nat. apply Sfx_many_nat. exact H. Qed.
+Lemma Sfx_vec {A} (d : dec A) : Sfx d -> Sfx (p_vec d).
+Proof. intros H. unfold p_vec. apply Sfx_bind; [apply Sfx_u32|intros n; apply Sfx_many; exact H]. Qed.
+Lemma Sfx_take n : Sfx (p_take n).
+Proof.
+  intros bs a r. unfold p_take. destruct (n <=? N.of_nat (length bs)); [|discriminate].
+  intros H. inversion H; subst. exists (firstn (N.to_nat n) bs). symmetry. apply firstn_skipn.
+Qed.
+#[local] Hint Resolve Sfx_byte Sfx_u16 Sfx_u32 Sfx_s32 Sfx_s64 Sfx_many Sfx_vec Sfx_take : sfx.
+
+Ltac sfx_tac :=
+  repeat first
+    [ apply Sfx_ret | apply Sfx_fail | assumption | solve [auto with sfx]
+    | match goal with |- Sfx (if ?c then _ else _) => destruct c end
+    | match goal with |- Sfx (match ?x with _ => _ end) => destruct x end
+    | apply Sfx_bind; [|intros ?] ].
+
+Lemma Sfx_bytes : Sfx p_bytes. Proof. unfold p_bytes. sfx_tac. Qed.
+#[local] Hint Resolve Sfx_bytes : sfx.
+Lemma Sfx_option {A} (d : dec A) : Sfx d -> Sfx (p_option d). Proof. intros H. unfold p_option. sfx_tac. Qed.
+Lemma Sfx_valtype : Sfx p_valtype. Proof. unfold p_valtype. sfx_tac. Qed.
+Lemma Sfx_blocktype : Sfx p_blocktype. Proof. unfold p_blocktype. sfx_tac. Qed.
+#[local] Hint Resolve Sfx_option Sfx_valtype Sfx_blocktype : sfx.
+Lemma Sfx_valtypes : Sfx p_valtypes. Proof. unfold p_valtypes. sfx_tac. Qed.
+Lemma Sfx_functype : Sfx p_functype. Proof. unfold p_functype. sfx_tac. Qed.
+Lemma Sfx_name : Sfx p_name. Proof. unfold p_name. sfx_tac. Qed.
+#[local] Hint Resolve Sfx_valtypes Sfx_functype Sfx_name : sfx.
+Lemma Sfx_import : Sfx p_import. Proof. unfold p_import. sfx_tac. Qed.
+Lemma Sfx_local : Sfx p_local. Proof. unfold p_local. sfx_tac. Qed.
+Lemma Sfx_data : Sfx p_data. Proof. unfold p_data. sfx_tac. Qed.
+#[local] Hint Resolve Sfx_import Sfx_local Sfx_data : sfx.
+Lemma Sfx_memory : Sfx p_memory. Proof. unfold p_memory. sfx_tac. Qed.
+Lemma Sfx_ginit : Sfx p_ginit. Proof. unfold p_ginit. sfx_tac. Qed.
+Lemma Sfx_export : Sfx p_export. Proof. unfold p_export. sfx_tac. Qed.
+Lemma Sfx_func : Sfx p_func. Proof. unfold p_func. sfx_tac. Qed.
+#[local] Hint Resolve Sfx_memory Sfx_ginit Sfx_export Sfx_func : sfx.
+(** in particular the whole parser consumes a prefix and returns the rest unchanged *)
+Theorem parse_artifact_suffix_thm : Sfx parse_artifact.
+Proof. unfold parse_artifact. sfx_tac. Qed.
+
+Definition suffix (input bs : list N) : Prop := exists pre, input = pre ++ bs.
+(** [View input f db d]: on every suffix of [input], [db] followed by [f] is [d] *)
+Definition View {A B} (input : list N) (f : B -> A) (db : dec B) (d : dec A) : Prop :=
+  forall bs, suffix input bs -> option_map (fun '(b, r) => (f b, r)) (db bs) = d bs.
+
+Lemma suffix_step input bs pre r : suffix input bs -> bs = pre ++ r -> suffix input r.
+Proof. intros [p ->] ->. exists (p ++ pre). rewrite <- app_assoc. reflexivity. Qed.
+
+Lemma View_ret {A B} input (f : B -> A) b a : f b = a -> View input f (ret b) (ret a).
+Proof. intros <- bs _. reflexivity. Qed.
+Lemma View_fail {A B} input (f : B -> A) : View input f fail fail.
+Proof. intros bs _. reflexivity. Qed.
+Lemma View_bind {A1 B1 A2 B2} input (f1 : B1 -> A1) (f2 : B2 -> A2) db d kb k :
+  View input f1 db d -> Sfx d -> (forall b, View input f2 (kb b) (k (f1 b))) ->
+  View input f2 (bind db kb) (bind d k).
+Proof.
+  intros H1 Hs H2 bs Hb. unfold bind. specialize (H1 bs Hb).
+  destruct (db bs) as [[b r]|]; cbn [option_map] in H1; rewrite <- H1; [|reflexivity].
+  apply H2. destruct (Hs _ _ _ (eq_sym H1)) as [pre E]. eapply suffix_step; eauto.
+Qed.
+Lemma View_bind_same {A1 A2 B2} input (f2 : B2 -> A2) (d : dec A1) kb k :
+  Sfx d -> (forall a, View input f2 (kb a) (k a)) -> View input f2 (bind d kb) (bind d k).
+Proof.
+  intros Hs H2. apply (View_bind input (fun x => x) f2 d d kb k); auto.
+  intros bs _. destruct (d bs) as [[a r]|]; reflexivity.
+Qed.
+Lemma View_ext {A B} input (f : B -> A) db d d' :
+  (forall bs, d bs = d' bs) -> View input f db d' -> View input f db d.
+Proof. intros E H bs Hb. rewrite E. apply H. exact Hb. Qed.
+Lemma bind_assoc {A B C} (d : dec A) (k1 : A -> dec B) (k2 : B -> dec C) bs :
+  bind (bind d k1) k2 bs = bind d (fun a => bind (k1 a) k2) bs.
+Proof. unfold bind. destruct (d bs) as [[a r]|]; reflexivity. Qed.
+
+Lemma View_many_nat {A B} input (f : B -> A) db d : View input f db d -> Sfx d ->
+  forall n, View input (map f) (p_many_nat db n) (p_many_nat d n).
+Proof.
+  intros H Hs. induction n as [|n IH]; intros bs Hb; cbn [p_many_nat]; [reflexivity|].
+  pose proof (H bs Hb) as E. destruct (db bs) as [[b r]|]; cbn [option_map] in E; rewrite <- E; [|reflexivity].
+  destruct (Hs _ _ _ (eq_sym E)) as [pre Ep].
+  pose proof (IH r (suffix_step _ _ _ _ Hb Ep)) as E2.
+  destruct (p_many_nat db n r) as [[l r']|]; cbn [option_map] in E2; rewrite <- E2; reflexivity.
+Qed.
+Lemma View_vec {A B} input (f : B -> A) db d : View input f db d -> Sfx d ->
+  View input (map f) (p_vec db) (p_vec d).
+Proof.
+  intros H Hs. unfold p_vec. apply View_bind_same; [apply Sfx_u32|]. intros n bs Hb.
+  rewrite !p_many_eq_nat. exact (View_many_nat input f db d H Hs (N.to_nat n) bs Hb).
+Qed.
+
+Lemma slice_suffix input bs n : suffix input bs ->
+  slice input (N.of_nat (length input) - N.of_nat (length bs), n) = firstn (N.to_nat n) bs.
+Proof.
+  intros [pre ->]. unfold slice. cbn [fst snd].
+  rewrite app_length, Nat2N.inj_add, N.add_sub, Nat2N.id, skipn_length_app. reflexivity.
+Qed.
+
+Lemma View_slice input :
+  View input (slice input) (p_slice (N.of_nat (length input))) p_bytes.
+Proof.
+  unfold p_slice, p_bytes. apply View_bind_same; [apply Sfx_u32|]. intros n bs Hb.
+  unfold p_slice_raw, p_take. destruct (n <=? N.of_nat (length bs)); [|reflexivity].
+  cbn [option_map]. cbv beta iota. rewrite slice_suffix by exact Hb. reflexivity.
+Qed.
+Lemma View_valtype_slice input :
+  View input (slice_valtypes input) (p_valtype_slice (N.of_nat (length input))) p_valtypes.
+Proof.
+  unfold p_valtype_slice, p_valtypes, p_bytes.
+  eapply View_ext; [intros bs; apply bind_assoc|].
+  apply View_bind_same; [apply Sfx_u32|]. intros n bs Hb.
+  unfold p_valtype_slice_raw, bind, p_take. destruct (n <=? N.of_nat (length bs)); [|reflexivity].
+  destruct (valtypes_of_bytes (firstn (N.to_nat n) bs)) as [ts|] eqn:E; [|reflexivity].
+  cbn [option_map]. cbv beta iota. unfold slice_valtypes. rewrite slice_suffix by exact Hb.
+  rewrite E. reflexivity.
+Qed.
+
+Lemma View_func input : View input (resolve_func input) (p_func_b (N.of_nat (length input))) p_func.
+Proof.
+  unfold p_func_b, p_func.
+  apply View_bind_same; [sfx_tac|intros ti].
+  apply View_bind_same; [sfx_tac|intros rt].
+  apply (View_bind input (slice_valtypes input)); [apply View_valtype_slice|sfx_tac|intros ps].
+  apply View_bind_same; [sfx_tac|intros nl].
+  apply View_bind_same; [sfx_tac|intros ls].
+  apply View_bind_same; [sfx_tac|intros nr].
+  apply View_bind_same; [sfx_tac|intros cs].
+  apply (View_bind input (slice input)); [apply View_slice|sfx_tac|intros code].
+  apply View_ret. reflexivity.
+Qed.
+
+Lemma View_artifact input :
+  View input (resolve input) (parse_artifact_b (N.of_nat (length input))) parse_artifact.
+Proof.
+  unfold parse_artifact_b, parse_artifact.
+  apply View_bind_same; [sfx_tac|intros v]. destruct (v =? 255); [|apply View_fail].
+  apply View_bind_same; [sfx_tac|intros ni].
+  apply View_bind_same; [sfx_tac|intros imports].
+  apply View_bind_same; [sfx_tac|intros types].
+  apply View_bind_same; [sfx_tac|intros table].
+  apply View_bind_same; [sfx_tac|intros memory].
+  apply View_bind_same; [sfx_tac|intros globals].
+  apply View_bind_same; [sfx_tac|intros raw].
+  destruct (normalise raw) as [exports|]; [|apply View_fail].
+  apply (View_bind input (map (resolve_func input))); [|sfx_tac|intros code; apply View_ret; reflexivity].
+  apply View_vec; [apply View_func|sfx_tac].
+Qed.
+
+Theorem borrowed_view_eq_thm : forall bs,
+  option_map (fun '(b, r) => (resolve bs b, r)) (parse_artifact_borrowed bs) = parse_artifact bs.
+Proof. intros bs. unfold parse_artifact_borrowed. apply View_artifact. exists []. reflexivity. Qed.
+
+(** the borrowed parse of a serialised well-formed artifact resolves to that artifact *)
+Corollary borrowed_roundtrip_thm : forall a rest, wf_artifact a ->
+  option_map (fun '(b, r) => (resolve (output_artifact a ++ rest) b, r))
+             (parse_artifact_borrowed (output_artifact a ++ rest)) = Some (a, rest).
+Proof. intros a rest W. rewrite borrowed_view_eq_thm. apply artifact_roundtrip_thm. exact W. Qed.
+
+Example borrowed_nonvacuous_ex :
+  match parse_artifact_borrowed (output_artifact sample_artifact ++ [7; 7]) with
+  | Some (b, r) => map bf_params (ba_code b) = [(97, 3)] /\ map bf_code (ba_code b) = [(126, 5)] /\ r = [7; 7]
+  | None => False
+  end.
+Proof. vm_compute. repeat split; reflexivity. Qed.
